@@ -76,6 +76,7 @@ def run(ctx):
     ctx.floor("L1", "service loops (TCP/TLS/QUIC accept, server UDP, client TCP accept, client UDP)", 6, len(service))
     l6_sibling_listeners(ctx, bodies, {b_.root for (b_, _, _) in service})
     l4_no_panic_in_listener_task(ctx, service)
+    l7_shared_lock_never_wedged(ctx)
     ctx.floor("L1", "per-flow loops (association task, binding reply task, ...)", 1, len(perflow))
     for (b, (h, body), src) in service:
         src_results = set()
@@ -538,3 +539,18 @@ def l4_no_panic_in_listener_task(ctx, service):
                "executed by a listener loop in its own task on received data: " + o.detail[:300])
     ctx.ob("L4", "workspace", "listener-task-panic-sites-inventoried", "-", True, f"{n} panic-site obligations (C07 P2) lie in functions that the service loops call in their own task; {len(inline_fns)} such functions", nontrivial=False, ordinal=False)
     ctx.floor("L4", "panic-site obligations in listener-task code", 5, n)
+
+
+def l7_shared_lock_never_wedged(ctx):
+    """L7 (= C09 K9): state shared by all flows of a listener (the replay cache behind its mutex) must stay usable whatever one flow does. A flow
+    that re-acquires a non-re-entrant lock while it still holds a guard of it blocks its worker thread forever *with the guard held*: every
+    later flow that needs the shared state blocks behind it, one worker each, until the runtime has none left."""
+    from .common import relock_sites, is_lock_call
+    prog = ctx.prog
+    n = sum(1 for b in prog.prod_bodies() for (_, c, _) in b.calls() if is_lock_call(c) and "tokio::sync" not in c.target)
+    ctx.floor("L7", "blocking lock acquisitions on shared state", 1, n)
+    for (b, t, t2, c2, how) in relock_sites(prog):
+        ctx.ob("L7", b.defp, f"shared-lock-never-wedged:{c2.method}", loc(t2["sp"]), False,
+               f"`{c2.name}` takes the lock again {how} while the guard acquired at {loc(t['sp'])} is alive: a self-deadlock with the guard held; one flow that reaches this "
+               "path parks its worker for good and every later flow that touches the same shared state parks behind it")
+    ctx.ob("L7", "workspace", "scan", "-", True, f"{n} blocking lock acquisitions scanned", nontrivial=False, ordinal=False)
